@@ -40,8 +40,7 @@ def check(w):
     scen = []
     for s in base:
         scen.append(dict(s))
-        scen.append(dict(s, mixed=True))
-        if s["kind"] == "ro":
+        if s["kind"] == "ro" and s["layout"] == "alone":
             scen.append(dict(s, missing=True))
     for i, s in enumerate(scen):
         s["id"] = i + 1
@@ -55,7 +54,8 @@ def check(w):
             raise Broken("rejections not reproduced on re-run")
         for o in obs2:
             if o["id"] in rej2:
-                v.violation({"kind": o["kind"], "changed": o["changed"], "refused": o["refused"], "dry_run": "n" in o["flags"], "sub": o["sub"], "missing": o["missing"]},
+                v.violation({"kind": o["kind"], "changed": o["changed"], "refused": o["refused"], "dry_run": "n" in o["flags"], "sub": o["sub"], "missing": o["missing"],
+                             "layout": (o.get("scn") or {}).get("layout")},
                             {"scenario": o["scn"], "diff": o["diff"][:10], "errtext": o["errtext"], "requests": o["requests"]})
     # effectiveness: the same upload against a writable twin changes the module
     key = lambda o: json.dumps([o["upload"], o["sub"], sorted(o["flags"]), o["transport"]])
@@ -83,7 +83,7 @@ def check(w):
         "evaluations": len(obs), "distinct_nontrivial": effective,
         "rule": "upload attempts over the daemon protocol (connection and stdin/stdout) with flag sets {-n, --delete}, destinations {module root, existing sub-directory, new nested path}, "
                 "uploads {benign tree, hostile list, empty tree with --delete} against directory-backed read-only, fs.FS-backed and (as effectiveness control) writable modules, "
-                "alone and in a mixed module table, also with the module directory missing; non-trivial = the writable twin of the scenario changes its module",
+                "alone and in module tables with writable modules as siblings, with a path that is a string prefix of the module's, above and below the module's directory, also with the module directory missing; non-trivial = the writable twin of the scenario changes its module",
         "action_coverage": cov, "negative_controls": len(bad), "worker_crashes": summ["crashed"],
     }
     v.assumptions = ["the whole sandbox directory (module, sibling modules) is compared before/after: names, types, file contents and mtimes"]
